@@ -156,6 +156,9 @@ def arrow_theory(h: H, parse_faults=False):
 
 
 def table_object(h: H, st: Store):
+    # read APIs run many times on one long-lived handle: any field of Table the harness does not set holds whatever an earlier
+    # call left there (per-handle caches!), not its constructor value
+    h.reg.stale_state.add("Table")
     dfm = h.obj("DataFileManager", storage=st.obj)
     fm = h.obj("FileManager", storage=st.obj, data_file_manager=dfm)
     mm = h.obj("MetadataManager", storage=st.obj)
